@@ -133,7 +133,10 @@ def check(model: Model, run: Run) -> None:
                     if q_ in model.functions and model.functions[q_].cls is None and not isinstance(model.functions[q_].node, ast.Lambda):
                         src += "\n" + ast.unparse(model.functions[q_].node)
         import re as _re
-        ok = bfi is not None and "CONTEXT_SPECIFIC" in src and bool(_re.search(rf"\.{idattr}\s*(==|!=)|(==|!=)\s*[\w.]+\.{idattr}\b", src)) and "options.choices" in src and "tag_number" in src
+        by_attr = bool(_re.search(rf"\.{idattr}\s*(==|!=)|(==|!=)\s*[\w.]+\.{idattr}\b", src))
+        # ... or through a shared helper that is told the name of the id attribute: getattr(choice, <that parameter>) compared with the tag number
+        by_name = (f"'{idattr}'" in src or f'"{idattr}"' in src) and bool(_re.search(r"getattr\([^)]*\)\s*(==|!=)|(==|!=)\s*getattr\(", src))
+        ok = bfi is not None and "CONTEXT_SPECIFIC" in src and (by_attr or by_name) and ".choices" in src and "tag_number" in src
         run.ob("D4-choice-dispatcher", ok, {"base": short(base)})
         if not ok:
             run.fail(Finding("D4-choice-dispatcher", base + ".unpack", "dispatcher shape", f"{short(base)}.unpack does not dispatch on the context tag number over options.choices", ""))
